@@ -61,6 +61,14 @@ class CFG:
             self._edge(p, self.EXIT)
         self._idom = None
         self._pdom = None
+        self._refined = None
+
+    @property
+    def refined(self) -> "FlagCFG":
+        """flag-refined view (same path-query API); see FlagCFG"""
+        if self._refined is None:
+            self._refined = FlagCFG(self)
+        return self._refined
 
     # ------------------------------------------------------------------ construction
     def _new(self, kind, node=None, of=None) -> int:
@@ -339,3 +347,157 @@ class CFG:
 
     def topo_position(self, nid: int) -> int:
         return getattr(self.nodes[nid].ast, "lineno", 0)
+
+
+# ---------------------------------------------------------------------- boolean-flag refinement
+
+
+def _flag_tests(test):
+    """(flag name, polarity on the T branch) if `test` is `flag` / `not flag`"""
+    if isinstance(test, ast.Name):
+        return test.id, True
+    if isinstance(test, ast.UnaryOp) and isinstance(test.op, ast.Not) and isinstance(test.operand, ast.Name):
+        return test.operand.id, False
+    return None
+
+
+class FlagCFG:
+    """Path queries on the product of a CFG with the values of its local boolean *flags*.
+
+    A flag is a local name that is only ever assigned the constants True / False (no parameter, no loop
+    target, no augmented assignment).  Tests of the form `flag` / `not flag` are then decided along each
+    path, which removes the infeasible paths of the common idiom
+
+        found = False                      for x in xs:
+        for x in xs:                           if p(x): ...; break
+            if p(x): found = True; break   else:
+        if not found: ...                      ...
+
+    so that both spellings answer path queries alike.  With no flags the product is the CFG itself.
+    """
+
+    def __init__(self, cfg: CFG):
+        self.cfg = cfg
+        self.flags = self._find_flags()
+        self._succ = {}
+        self._states = None
+
+    def _find_flags(self):
+        cfg = self.cfg
+        assigned = {}
+        bad = set()
+        fn = cfg.fn
+        if hasattr(fn, "args"):
+            a = fn.args
+            for p in a.posonlyargs + a.args + a.kwonlyargs:
+                bad.add(p.arg)
+            if a.vararg:
+                bad.add(a.vararg.arg)
+            if a.kwarg:
+                bad.add(a.kwarg.arg)
+        for n in cfg.nodes.values():
+            st = n.ast
+            if st is None:
+                continue
+            if n.kind == "for":
+                bad.update(A.target_names(st.target))
+            elif n.kind == "with":
+                for it in st.items:
+                    if it.optional_vars is not None:
+                        bad.update(A.target_names(it.optional_vars))
+            elif n.kind == "except":
+                if getattr(st, "name", None):
+                    bad.add(st.name)
+            elif n.kind == "stmt":
+                if isinstance(st, ast.Assign):
+                    for t in st.targets:
+                        if isinstance(t, ast.Name):
+                            if isinstance(st.value, ast.Constant) and isinstance(st.value.value, bool) and len(st.targets) == 1:
+                                assigned.setdefault(t.id, []).append(n.id)
+                            else:
+                                bad.add(t.id)
+                        else:
+                            bad.update(A.target_names(t))
+                elif isinstance(st, (ast.AugAssign, ast.AnnAssign)):
+                    bad.update(A.target_names(st.target))
+                elif isinstance(st, ast.Delete):
+                    for t in st.targets:
+                        bad.update(A.target_names(t))
+                for x in A.walk(st):
+                    if isinstance(x, ast.NamedExpr):
+                        bad.add(x.target.id)
+            elif n.kind == "test":
+                for x in A.walk(st):
+                    if isinstance(x, ast.NamedExpr):
+                        bad.add(x.target.id)
+        return sorted(f for f in assigned if f not in bad)
+
+    def _step(self, state):
+        """successor states of (nid, env); env is a tuple aligned with self.flags of True/False/None"""
+        if state in self._succ:
+            return self._succ[state]
+        nid, env = state
+        cfg = self.cfg
+        n = cfg.nodes[nid]
+        out = []
+        env2 = env
+        if n.kind == "stmt" and isinstance(n.ast, ast.Assign) and len(n.ast.targets) == 1 and isinstance(n.ast.targets[0], ast.Name) \
+                and n.ast.targets[0].id in self.flags and isinstance(n.ast.value, ast.Constant):
+            i = self.flags.index(n.ast.targets[0].id)
+            env2 = env[:i] + (bool(n.ast.value.value),) + env[i + 1:]
+        for s in cfg.g.successors(nid):
+            kind = cfg.g[nid][s]["kind"]
+            sn = cfg.nodes[s]
+            e = env2 if kind != "x" else env      # an exception leaves before the assignment took effect
+            if n.kind == "test" and sn.kind in ("T", "F") and sn.of == nid:
+                ft = _flag_tests(n.ast)
+                if ft is not None and ft[0] in self.flags:
+                    val = env[self.flags.index(ft[0])]
+                    if val is not None:
+                        holds = (val == ft[1])
+                        if (sn.kind == "T") != holds:
+                            continue
+            out.append(((s, e), kind))
+        self._succ[state] = out
+        return out
+
+    def states(self):
+        """all reachable product states, from (ENTRY, unknown...)"""
+        if self._states is None:
+            start = (self.cfg.ENTRY, tuple(None for _ in self.flags))
+            seen = {start}
+            todo = [start]
+            while todo:
+                st = todo.pop()
+                for nx_, _k in self._step(st):
+                    if nx_ not in seen:
+                        seen.add(nx_)
+                        todo.append(nx_)
+            self._states = seen
+        return self._states
+
+    def reachable(self, a: int, avoid: Iterable[int] = (), normal_only: bool = False) -> Set[int]:
+        avoid = set(avoid)
+        seen_states = set()
+        out = set()
+        todo = [st for st in self.states() if st[0] == a]
+        while todo:
+            st = todo.pop()
+            for nx_, k in self._step(st):
+                if nx_[0] in avoid or nx_ in seen_states:
+                    continue
+                if normal_only and k == "x":
+                    continue
+                seen_states.add(nx_)
+                out.add(nx_[0])
+                todo.append(nx_)
+        return out
+
+    def path_avoiding(self, a: int, b: int, avoid: Iterable[int], normal_only: bool = False) -> bool:
+        return b in self.reachable(a, avoid, normal_only)
+
+    def must_pass(self, a: int, b: int, via: Iterable[int], normal_only: bool = False) -> bool:
+        return not self.path_avoiding(a, b, via, normal_only)
+
+    def feasible(self, nid: int) -> bool:
+        return any(st[0] == nid for st in self.states())
